@@ -203,6 +203,13 @@ class _SegOrderedDict(object):
     def items(self):
         return list(self.pairs)
 
+    def __setitem__(self, k, v):
+        # a statement loop filling the mapping is not covered by the map-only reading of rule 6 (its body could test the partial result)
+        raise Unsupported("OrderedDict filled by item assignment: outside the generic-element rule used for args_to_parameters")
+
+    def __getattr__(self, name):
+        raise Unsupported("OrderedDict.%s on the abstract parameter mapping" % name)
+
 
 def _register_params_unbounded():
     import code_data as CD
